@@ -16,6 +16,7 @@ void drv(rcu_guarded<list_t>& g, const rcu_guarded<list_t>& cg, const vf::payloa
     {
         auto r = cg.lock_read();
         for (auto it = r->begin(); it != r->end(); ++it) { (void)*it; }
+        { auto cit = r->begin(); if (cit != r->end()) { cit++; } }
         (void)(*r).begin();
     }
     list_t l2;
